@@ -147,7 +147,8 @@ def run(pid, tier):
 
 def exh_viol(tier):
     import lexmodel
-    mb = 3 if tier == "quick" else 4
+    mb = 3      # both tiers: MaxBody 4 gives 1.6e6 (structure, operator, site) triples, more than the replay harness holds;
+    #             the thorough tier grows the simulated part instead
     k = cache.key("violexh", mb)
     c = cache.get(k)
     if c is not None:
